@@ -7,6 +7,7 @@ import (
 	"strings"
 
 	"github.com/brutella/hc/accessory"
+	"github.com/brutella/hc/characteristic"
 	"github.com/brutella/hc/service"
 )
 
@@ -29,10 +30,21 @@ func runIDs(id string, toks []string) (res string) {
 		eid, _ := strconv.Atoi(p[0])
 		a := accessory.New(accessory.Info{Name: fmt.Sprintf("acc%d", ai), ID: uint64(eid)}, accessory.TypeOther)
 		var svcs []*service.Service
+		var late [][2]int
 		if len(p) > 1 && p[1] != "" {
 			for _, ss := range strings.Split(p[1], ",") {
 				name := ss
 				hidden, primary, link := false, false, -1
+				if i := strings.Index(name, "^"); i >= 0 {
+					// ^k : k optional characteristics are added to this service AFTER all services were added
+					j := i + 1
+					for j < len(name) && name[j] >= '0' && name[j] <= '9' {
+						j++
+					}
+					k, _ := strconv.Atoi(name[i+1 : j])
+					late = append(late, [2]int{len(svcs), k})
+					name = name[:i] + name[j:]
+				}
 				if i := strings.Index(name, "~"); i >= 0 {
 					link, _ = strconv.Atoi(name[i+1:])
 					name = name[:i]
@@ -58,6 +70,13 @@ func runIDs(id string, toks []string) (res string) {
 				}
 				svcs = append(svcs, s)
 				a.AddService(s)
+			}
+		}
+		for _, l := range late {
+			for q := 0; q < l[1]; q++ {
+				c := characteristic.NewString(fmt.Sprintf("F00000%02d-0000-1000-8000-0026BB765291", q))
+				c.Perms = []string{characteristic.PermRead}
+				svcs[l[0]].AddCharacteristic(c.Characteristic)
 			}
 		}
 		if err := cont.AddAccessory(a); err != nil {
